@@ -602,6 +602,8 @@ class MatrixProviderUnlinked(MatrixProvider):
                 else:
                     full_matrix = np.kron(global_matrix, matrix)
 
+                full_matrix = full_matrix * float(dataset_model.scale or 1)
+
                 weight = self._data_provider.get_flattened_weight(label)
                 if weight is not None:
                     full_matrix = MatrixContainer.apply_weight(full_matrix, weight)
